@@ -460,6 +460,8 @@ def canon_wildcard_order(ans, wit):
             # a star with an exclusion list next to the excluded columns themselves (`dept, * EXCLUDE (dept)`) is the star: where the
             # excluded column lands among the select items is the order this leak is about
             body = m.group(1)
+            pre = re.match(r"DISTINCT ON \([^)]*\) |DISTINCT ", body)
+            head, body = (pre.group(0), body[pre.end():]) if pre else ("", body)
             excluded = set()
 
             def star(mm):
@@ -472,7 +474,7 @@ def canon_wildcard_order(ans, wit):
             items = [i for i in items if not any(i.startswith(q) and i != q + "*" and re.fullmatch(r"[\w.\"`]+", i) for q in stars)]
             if "*" in items:
                 items = [i for i in items if i == "*" or not re.fullmatch(r"[\w\"`]+", i)]
-            return "SELECT " + ", ".join(sorted(items)) + " FROM"
+            return "SELECT " + head + ", ".join(sorted(items)) + " FROM"
         return {**ans, "sql": re.sub(r"SELECT (.*?) FROM", sel, ans["sql"])}
     if isinstance(ans, dict) and "rq" in ans:
         # a different column order inside a table also shifts the column ids handed out after it: compare the RQ modulo the
